@@ -663,7 +663,8 @@ def has_singleton_eq(t) -> bool:
 def _boolop_constant_fold(f) -> bool:
     """F15-6: the BoolOp branch of simplify_boolean_expressions replaces `a and <falsy const> and b` by False /
     `a or <truthy const> or b` by True.  Structural predicate: the rule is that one (or the whole pipeline) and the
-    program contains a BoolOp with a direct operand that is a constant or `not <constant>`."""
+    program contains a BoolOp with a direct operand that is a constant or a closed expression (no names, calls or
+    attributes) which the other folding rules turn into a constant first."""
     if f["rule"] not in ("simplify_boolean_expressions", "format_code"):
         return False
     try:
@@ -671,16 +672,15 @@ def _boolop_constant_fold(f) -> bool:
     except SyntaxError:
         return False
 
-    def constlike(n):
-        return isinstance(n, ast.Constant) or (isinstance(n, ast.UnaryOp) and isinstance(n.op, ast.Not)
-                                               and isinstance(n.operand, ast.Constant))
-    return any(isinstance(n, ast.BoolOp) and any(constlike(v) for v in n.values) for n in ast.walk(tree))
+    def closed(n):
+        return not any(isinstance(x, (ast.Name, ast.Call, ast.Attribute)) for x in ast.walk(n))
+    return any(isinstance(n, ast.BoolOp) and any(closed(v) for v in n.values) for n in ast.walk(tree))
 
 
 def _unbounded_evaluation(f) -> bool:
     """F15-7: the rule does not return because literal_value evaluates an astronomically large power / shift /
     repetition eagerly."""
-    if "did not return" not in f["problem"] and "hang" not in f["problem"]:
+    if not (f["problem"].startswith("rule did not return") or f["problem"] == "the rule raised hang"):
         return False
     try:
         tree = ast.parse(f["program"])
